@@ -102,7 +102,12 @@ func (c *vconn) Write(p []byte) (int, error) {
 	if c.onWrite != nil {
 		if err := c.onWrite(c, p); err != nil {
 			c.writes = append(c.writes, vconnWrite{append([]byte{}, p...), true})
+			sig := c.signalLocked
+			c.signalLocked = false
 			verifUnlock()
+			if sig {
+				c.signal()
+			}
 			return 0, err
 		}
 	}
